@@ -271,7 +271,7 @@ Theorem step_refines v o : wf v ->
   | UB => False
   end.
 Proof.
-  intros W. destruct o as [x| |i x|i|n| |i x|spare xs| |]; cbn [step spec_step].
+  intros W. destruct o as [x| |i x|i|n| |i x|spare xs| | |dst]; cbn [step spec_step].
   - destruct (push_ok v x W) as (v' & E & W' & A). rewrite E, A. auto.
   - destruct (pop_ok v W) as (v' & r & E & W' & M). rewrite E.
     destruct (rev (abs v)); destruct M as (-> & ->); auto.
@@ -293,6 +293,7 @@ Proof.
     rewrite R. destruct (existsb poison (abs v)).
     + auto.
     + destruct (clone_ok v W) as (c & E & Wc & A). rewrite E, (drop_ok v W), A. auto.
+  - destruct (clone_ok v W) as (c & E & Wc & A). rewrite E, (drop_ok v W), A. auto.
 Qed.
 
 (* Lift to whole scripts: the model's output equals the specification's output. *)
@@ -336,6 +337,7 @@ Definition entered (l : list Z) (o : vop) : list Z :=
   | VWrite i x => [x]
   | VClone => l
   | VCloneP => if existsb poison l then cloned_before l else l
+  | VCloneFrom dst => dst ++ l
   | VFromVec _ xs => xs
   | _ => []
   end.
@@ -357,7 +359,7 @@ Lemma spec_step_conserves l o :
   let '(l', (r, ds), _) := spec_step l o in
   Permutation (l ++ entered l o) (l' ++ returned r ++ ds).
 Proof.
-  destruct o as [x| |i x|i|n| |i x|spare xs| |]; cbn [spec_step entered returned].
+  destruct o as [x| |i x|i|n| |i x|spare xs| | |dst]; cbn [spec_step entered returned].
   - now rewrite !app_nil_r.
   - destruct (rev l) eqn:R.
     + reflexivity.
@@ -384,6 +386,7 @@ Proof.
   - cbn [returned app]. apply Permutation_app_comm.
   - cbn. now rewrite !app_nil_r.
   - destruct (existsb poison l); cbn [returned app]; reflexivity.
+  - cbn [returned app]. reflexivity.
 Qed.
 
 (* Over any script (ending with the drop of the vector): everything that was in the
@@ -407,3 +410,22 @@ Proof.
     apply Permutation_app_head.
     etransitivity; [apply Permutation_app_comm | exact IH].
 Qed.
+
+(* Clone::clone_from: whatever the destination held, it ends up as a copy of the source — same contents, same length — its own elements are destroyed
+   (they head the destructor row), and the source's old storage goes away with its elements when the copy takes its place. *)
+
+(* Clone::clone_from: whatever the destination held, it ends up as a copy of the source — same contents, same length — its own elements are destroyed
+   (they head the destructor row), and the source's old storage goes away with its elements when the copy takes its place. *)
+Section CloneFrom.
+Variable grow : nat -> nat -> nat -> nat.
+Hypothesis grow_ok : forall l a c, l + a <= grow l a c.
+Theorem clone_from_copies v dst : wf v ->
+  exists c, step grow v (VCloneFrom dst) = Ok (c, ([5%Z], dst ++ abs v)) /\ wf c /\ abs c = abs v.
+Proof.
+  intros W. pose proof (step_refines grow grow_ok v (VCloneFrom dst) W) as R.
+  destruct (step grow v (VCloneFrom dst)) as [[c out]|[c out]|]; cbn [spec_step] in R.
+  - destruct R as (Wc & E). injection E as E1 E2. subst out. exists c. split; [reflexivity|]. split; [exact Wc|]. now symmetry.
+  - destruct R as (_ & _ & E). discriminate.
+  - contradiction.
+Qed.
+End CloneFrom.
